@@ -1,5 +1,8 @@
 pub mod explore;
 pub mod oracle;
+pub mod plans;
+pub mod probes;
+pub mod report;
 pub mod pool;
 pub mod profiles;
 pub mod shim;
